@@ -831,12 +831,21 @@ func typedSpellings() *core.Family {
 		run  func(t *core.T)
 	}
 	var cases []c
-	for _, a := range []struct{ fn, arg string }{{"decimal", "1.5"}, {"decimal", "-922337203685477.5808"}, {"ip", "10.0.0.0/8"}, {"ip", "::1"}, {"datetime", "2024-01-01T00:00:00.000Z"}, {"datetime", "1969-12-31"}, {"duration", "1h"}, {"duration", "-1d2h3m4s5ms"}} {
+	for _, a := range []struct{ fn, arg string }{{"decimal", "1.5"}, {"decimal", "-922337203685477.5808"}, {"ip", "10.0.0.0/8"}, {"ip", "::1"}, {"ip", "2001:db8::/32"}, {"ip", "1.2.3.4"}, {"datetime", "2024-01-01T00:00:00.000Z"}, {"datetime", "1969-12-31"}, {"duration", "1h"}, {"duration", "-1d2h3m4s5ms"}} {
 		a := a
 		cases = append(cases, c{a.fn + ":" + a.arg, func(t *core.T) {
 			var keys []string
+			var docs []string
 			for k := 0; k < 3; k++ {
 				js := spellExt(k, a.fn, a.arg)
+				docs = append(docs, js)
+				alts, err := core.JSONSpellings([]byte(js))
+				if err != nil {
+					t.Fail("harness-json-spelling", js, "valid JSON", err.Error())
+				}
+				docs = append(docs, alts...)
+			}
+			for _, js := range docs {
 				var v types.Value
 				var err error
 				switch a.fn {
